@@ -158,9 +158,11 @@ static void parseProbe(void *inFrame, lltd_iface_state *st, void *iface_ctx)
 __CPROVER_requires(PRE_frame(inFrame) && ST_WF(st))
 __CPROVER_requires(iface_ctx == g_ctx) /*@C17.ctx-passed*/
 __CPROVER_assigns(g_led, st->see_list, st->see_list_count)
+/* first: a recorded observation lives in a new object (when the contract replaces the call this clause creates it, so it
+ * must precede the clauses that read the node) */
+__CPROVER_ensures(!PROBE_RECORDS(inFrame, __CPROVER_old(st->see_list), __CPROVER_old(st->see_list_count), __CPROVER_old(g_led.allocs)) || V_IS_FRESH(st->see_list, sizeof(probe_t))) /*@C07.probe-new-node C19.probe-new-node*/
 __CPROVER_ensures(C07_PROBE(st, inFrame, __CPROVER_old(st->see_list), __CPROVER_old(st->see_list_count), __CPROVER_old(g_led.live), __CPROVER_old(g_led.allocs), __CPROVER_old(g_led.tx_attempts))) /*@C07.probe-recorded-once C10.observer-records C19.probe-ledger C02.probe-silent*/
 __CPROVER_ensures(C07_PROBE_FOREIGN(st, inFrame, __CPROVER_old(st->see_list), __CPROVER_old(g_led.allocs))) /*@C07.probe-foreign-ignored*/
-__CPROVER_ensures(!PROBE_RECORDS(inFrame, __CPROVER_old(st->see_list), __CPROVER_old(st->see_list_count), __CPROVER_old(g_led.allocs)) || V_IS_FRESH(st->see_list, sizeof(probe_t))) /*@C07.probe-new-node C19.probe-new-node*/
 __CPROVER_ensures(ST_WF(st)) /*@C07.probe-wf C19.probe-wf*/
 ;
 
@@ -243,10 +245,10 @@ static void parseQueryLargeTlv(void *inFrame, lltd_iface_state *st, void *iface_
 __CPROVER_requires(PRE_frame(inFrame) && ST_SHAPE(st))
 __CPROVER_requires(iface_ctx == g_ctx) /*@C17.ctx-passed*/
 __CPROVER_assigns(g_led, st->mapper_seq, st->mapper_real, st->mapper_apparent, st->mapper_known, st->small_icon, st->small_icon_size)
+__CPROVER_ensures(__CPROVER_old(st->small_icon) != NULL || st->small_icon == NULL || V_IS_FRESH(st->small_icon, st->small_icon_size)) /*@C08.qlt-new-icon C19.qlt-new-icon*/
 __CPROVER_ensures(C08_SEQ0(st, inFrame, __CPROVER_old(st->mapper_seq), __CPROVER_old(st->mapper_known), __CPROVER_old(g_led.allocs), __CPROVER_old(g_led.tx_attempts), __CPROVER_old(g_led.live))) /*@C08.seq-zero-ignored*/
 __CPROVER_ensures(C08_QLT_STATE(st, inFrame, __CPROVER_old(st->mapper_known), __CPROVER_old(st->mapper_real), __CPROVER_old(st->mapper_apparent))) /*@C08.qlt-state C05.qlt-state*/
 __CPROVER_ensures(C08_QLT_LEDGER(st, __CPROVER_old(g_led.tx_attempts), __CPROVER_old(g_led.live), __CPROVER_old(st->small_icon))) /*@C08.qlt-ledger C19.qlt-ledger C02.qlt-single*/
-__CPROVER_ensures(__CPROVER_old(st->small_icon) != NULL || st->small_icon == NULL || V_IS_FRESH(st->small_icon, st->small_icon_size)) /*@C08.qlt-new-icon C19.qlt-new-icon*/
 __CPROVER_ensures(ST_SHAPE(st)) /*@C08.qlt-wf C19.qlt-wf*/
 ;
 
